@@ -321,7 +321,9 @@ Which(x) == IF x.u = 0 THEN "" ELSE IF x.u = 1 THEN "first" ELSE "last"
 \* concrete classes an abstract class stands for (tried in this order; a class that does not fit the field falls back
 \* to the widest one that does - Faults.tla ClassDigits)
 ConcreteClasses(c) == CASE c = "hi" -> <<"b31", "b63">> [] c = "ones" -> <<"m32", "m64">> [] OTHER -> <<c>>
-Witness == [w |-> w, n |-> n, k |-> NRec(w, n), pc |-> st.pc, pos |-> st.pos,
+\* the kind of valid file the walker starts from, where it matters (a trait of the seed, see Faults!SeedLines)
+Needs == CASE w = "phdr0" -> "no phtable" [] w = "phdr" -> "phtable" [] w = "shdr" -> "shtable" [] OTHER -> ""
+Witness == [w |-> w, n |-> n, k |-> NRec(w, n), pc |-> st.pc, pos |-> st.pos, needs |-> Needs,
             faults |-> {[f |-> x.f, which |-> Which(x), c |-> x.c, classes |-> ConcreteClasses(x.c),
                          maps |-> {<<m[1], m[2]>> : m \in Maps(x.f)}] : x \in flt}]
 WitnessBound == (st.steps > K * (n + 1)) => CSVWrite("%1$s", <<ToJson(Witness)>>, IOEnv.OUT)
